@@ -1112,6 +1112,30 @@ def _interleaved_reads(sfd, path, full, salt):
   list(fd.client_ids()), list(fd.clients()), [fd.get_client(c) for c, _, _ in kept]
   out['kept_results'] = [[c.hex(), None, 'same' if _observe(dict(ds.all_examples())) == o and full.get(c.hex()) == o else 'changed']
                          for c, ds, o in kept]
+  # argument plumbing of the derived views: a custom parser given to .new() and a slice / preprocess_client / preprocess_batch /
+  # slice chain must ALL still be in force on the last view (parser, both preprocessors, the intersected range)
+  parsed = []
+
+  def custom(blob):
+    parsed.append(1)
+    return sfd.decompress_and_deserialize(blob)
+  rows = lambda e: len(next(iter(e.values())))
+  srt = sorted(ids)
+  if len(srt) >= 3:
+    lo, hi, lo2 = srt[0], srt[-1], srt[1]
+    root = sfd.SQLiteFederatedData.new(path, custom) if salt % 2 else sfd.SQLiteFederatedData.new(path=path, parse_examples=custom)
+    view = root.slice(start=lo, stop=hi).preprocess_client(lambda cid, e: {**e, '__pc__': np.full(rows(e), 1, np.int8)}) \
+        .preprocess_batch(lambda e: {**e, '__pb__': np.full(rows(e), 2, np.int8)}).slice(start=lo2)
+    got = [(c, dict(ds.all_examples())) for c, ds in view.clients()]
+    want_ids = [c for c in ids if lo2 <= c < hi]
+    ok = [c for c, _ in got] == want_ids and bool(parsed) and int(view.num_clients()) == len(want_ids)
+    for c, e in got:
+      n = rows(e)
+      ok = ok and e.get('__pc__') is not None and e['__pc__'].tolist() == [1] * n and e.get('__pb__') is not None and e['__pb__'].tolist() == [2] * n
+      ok = ok and full.get(c.hex()) == _observe({k: v for k, v in e.items() if k not in ('__pc__', '__pb__')})
+    plain = dict(root.get_client(srt[1]).all_examples())
+    ok = ok and '__pc__' not in plain and '__pb__' not in plain          # the parent view is not affected
+    out['view_chain_forwarding'] = [[h, None, 'same'] for h in first_pass] if ok else []
   fd = open_(5)
   sl = fd.slice(start=b'')          # a view over every client, sharing the connection
   r = []
@@ -1581,7 +1605,7 @@ def oracle(case, obs):
     want_rows = [[cid, feats[0][1]['shape'][0]] for cid, feats in clients]
     for pat, rows in inter.items():
       got_rows = [[c, n if n is not None else w[1]] for (c, n, _), w in zip(rows, want_rows + [[None, None]] * len(rows))]
-      no_size = ('zip_ids_clients', 'ids_twice', 'clients_in_pieces', 'get_clients_forms', 'shuffled_epochs', 'kept_results')
+      no_size = ('zip_ids_clients', 'ids_twice', 'clients_in_pieces', 'get_clients_forms', 'shuffled_epochs', 'kept_results', 'view_chain_forwarding')
       if len(rows) != len(want_rows) or got_rows != want_rows or any(n is None and pat not in no_size for _, n, _ in rows) \
           or any(e != 'same' for _, _, e in rows):
         out.append(('sqlite-interleaved',
